@@ -401,6 +401,11 @@ def universes(chk):
         ps3 = paths(["a", "b"], 3)
         extra = [(c, t) for c in ps3 for t in ps3 if max(len(c), len(t)) == 3]
         pairs += rng.sample(extra, 120)
+    # package names where one is a character prefix of the other without being its ancestor (a / ab, api.v1 / api.v1beta)
+    psx = paths(["a", "ab"], 2) + [("api", "v1"), ("api", "v1beta"), ("api", "v1beta", "types")]
+    lookalike = [(c, t) for c in psx for t in psx if c and t and c != t and (dot(t).startswith(dot(c)) or dot(c).startswith(dot(t)))
+                 and relation(c, t) not in ("descendant", "ancestor")]
+    pairs += lookalike if not quick else rng.sample(lookalike, min(8, len(lookalike)))
     us += [pair_universe(c, t) for c, t in pairs]
     # reference sites in isolation: the RPC input / output types are the only reference to the other package
     # (quick: two pairs per relation class; thorough: every pair)
@@ -463,6 +468,10 @@ def typeref_cases(chk):
                     for pyd in (False, True):
                         cases.append((dot(c), fq(t, ty), unwrap, pyd))
     ps = paths(["a", "b", "c", "b_c"], 3 if not quick else 2)
+    for c in ps:
+        for t in ps:
+            cases.append((dot(c), fq(t, "Msg"), True, False))
+    ps = paths(["a", "ab", "a_b"], 2) + [("api", "v1"), ("api", "v1beta"), ("api", "v1beta", "types"), ("google", "protobuf2"), ("google", "proto")]
     for c in ps:
         for t in ps:
             cases.append((dot(c), fq(t, "Msg"), True, False))
